@@ -134,6 +134,8 @@ class FnChecker:
         self.escaped: set[Value] = set()
         self.is_error_tested: set[Value] = set()
         self.assign_multi_src: dict[Value, list[Value]] = {}
+        self.steal_kinds: dict[str, int] = {}
+        self.multi_steal_ops = 0
         max_mult = 1
         for a in fn.arg_regs:
             add(a)
@@ -156,6 +158,11 @@ class FnChecker:
                 st = op.stolen()
                 for s in st:
                     max_mult = max(max_mult, st.count(s))
+                if any(s.type.is_refcounted for s in st):
+                    kind = self.opname(op)
+                    self.steal_kinds[kind] = self.steal_kinds.get(kind, 0) + 1
+                    if any(st.count(s) > 1 and s.type.is_refcounted for s in st):
+                        self.multi_steal_ops += 1
         self.pre_spill_generator = self.stage == "refcount" and any(
             isinstance(b.ops[-1], Return) and b.ops[-1].yield_target is not None for b in self.blocks)
         self.vals = vals
@@ -409,6 +416,7 @@ class FnChecker:
 
         # ---- steals (generic: declared by the op)
         if True:
+            taken: set[int] = set()
             for v in op.stolen():
                 i = idx.get(v)
                 if i is None or not self.refc[i]:
@@ -418,8 +426,12 @@ class FnChecker:
                     continue
                 if (c >> 3) > 0:
                     self._release(s, i)
+                    taken.add(i)
                 elif c & 4:
                     self.flag("steal-of-borrowed", op, v, pos, key)
+                elif i in taken:
+                    # the same value in several stolen operand positions: every position takes a reference of its own
+                    self.flag("over-release", op, v, pos, key)
                 # else: already reported as use-after-release
 
         if isinstance(op, SetMem):
@@ -704,7 +716,7 @@ def check_function(fn: FuncIR, stage: str, max_states: int = 400000) -> dict:
         return {"states": 0, "transitions": 0, "entry_states": 0, "capped": False, "blocks": len(fn.blocks),
                 "ops": sum(len(b.ops) for b in fn.blocks), "tracked": 0, "escaped": 0,
                 "ends": {"return": 0, "error_return": 0, "unreachable": 0, "yield": 0}, "arg_null_combos_capped": False,
-                "n_increfs": 0, "n_decrefs": 0, "violations": [], "malformed": True}
+                "n_increfs": 0, "n_decrefs": 0, "violations": [], "malformed": True, "steal_kinds": {}, "multi_steal_ops": 0}
     ck = FnChecker(fn, stage, max_states)
     ck.run()
     viols = []
@@ -727,4 +739,6 @@ def check_function(fn: FuncIR, stage: str, max_states: int = 400000) -> dict:
         "n_decrefs": sum(isinstance(o, DecRef) for b in fn.blocks for o in b.ops),
         "violations": viols,
         "malformed": False,
+        "steal_kinds": ck.steal_kinds,
+        "multi_steal_ops": ck.multi_steal_ops,
     }
